@@ -558,6 +558,19 @@ class Unit:
                     if lbo < rp < lend:
                         inserts.append((bo + rp, block_lines(sl)))
                 continue
+            if kind == 'loop-back-edges':
+                # before every way back to the head of loop nn: each `continue` that belongs to it (not to a nested loop) and the end of its body
+                if loops is None:
+                    loops = rx.find_loops(body)
+                if nn is None or nn < 1 or nn > len(loops):
+                    raise Undecided('lost anchor: %s loop %s (function has %d loops)' % (fid, nn, len(loops)))
+                kw, kpos, lbo, lend = loops[nn - 1]
+                nested = [(l[2], l[3]) for l in loops if lbo < l[2] and l[3] < lend]
+                for cp in rx.find_keyword(body, 'continue'):
+                    if lbo < cp < lend and not any(a < cp < b for a, b in nested):
+                        inserts.append((bo + cp, block_lines(sl)))
+                inserts.append((bo + lend - 1, block_lines(sl)))
+                continue
             if kind in ('loop', 'before-loop', 'loop-start', 'loop-end'):
                 if loops is None:
                     loops = rx.find_loops(body)
